@@ -83,3 +83,13 @@ package files
 //@   ensures ext: (length > 0 && offset + length <= v.size) ==> seqx(result, ssub(rdData(v), offset, offset + length))
 //@   ensures bytes: (length > 0 && offset + length <= v.size) ==> result == ssub(rdData(v), offset, offset + length)
 //@   ensures none: !(length > 0 && offset + length <= v.size) ==> result == ""
+
+// ---- the -files argument (C18: a function that parses a string prints nothing) ----
+//@ func ParsePath [C18]
+//@   effects nocomp stdout
+//@   trusted
+//@   modifies *
+//@ func (*Path).GetFileList [C18]
+//@   effects nocomp stdout
+//@   trusted
+//@   modifies *
